@@ -193,7 +193,7 @@ def run(ctx):
                 continue
             if ic != mc:
                 tree_bad += 1
-                bad_accept = ic == 0 and mc in (1, 2, 3)
+                bad_accept = ic in (0, 9) and mc in (1, 2, 3)   # accepted (possibly with an invalid HUGR) although the model finds a violation
                 wrongly_accepted += bad_accept
                 if tree_bad <= 4:
                     (HERE / "corpus").mkdir(exist_ok=True)
